@@ -174,9 +174,11 @@ struct ApplyMagnitudeImpl<Mag, ApplyAs::RATIONAL_MULTIPLY, T, true> {
     }
 
     static constexpr bool would_truncate(const T &x) {
-        constexpr auto mag_value_result = get_value_result<T>(denominator(Mag{}));
-        return TruncationChecker<T, mag_value_result.outcome == MagRepresentationOutcome::OK>::
-            would_truncate(x, mag_value_result.value);
+        // The division happens in the promoted type, so that is where the denominator must fit.
+        using P = PromotedType<T>;
+        constexpr auto mag_value_result = get_value_result<P>(denominator(Mag{}));
+        return TruncationChecker<P, mag_value_result.outcome == MagRepresentationOutcome::OK>::
+            would_truncate(static_cast<P>(x), mag_value_result.value);
     }
 };
 
